@@ -431,6 +431,111 @@ func runC08(r *mon.Run) {
 		}
 	})
 
+	// --- the full selector x digest-length matrix: every hash identifier the standard library
+	// defines, digest lengths at, around and far from every hash size, SelfVerify off/on, the
+	// selector passed as *ECDSAOptions or as a bare crypto.Hash: signed iff the length is
+	// exactly the size of the selected hash (and at least 32 bytes), an error otherwise; Verify
+	// with the same selector accepts only what Sign may have signed
+	hashSize := map[crypto.Hash]int{crypto.MD4: 16, crypto.MD5: 16, crypto.SHA1: 20, crypto.SHA224: 28, crypto.SHA256: 32, crypto.SHA384: 48, crypto.SHA512: 64,
+		crypto.MD5SHA1: 36, crypto.RIPEMD160: 20, crypto.SHA3_224: 28, crypto.SHA3_256: 32, crypto.SHA3_384: 48, crypto.SHA3_512: 64, crypto.SHA512_224: 28,
+		crypto.SHA512_256: 32, crypto.BLAKE2s_256: 32, crypto.BLAKE2b_256: 32, crypto.BLAKE2b_384: 48, crypto.BLAKE2b_512: 64}
+	lens := []int{0, 16, 20, 28, 31, 32, 33, 36, 47, 48, 49, 63, 64, 65, 66, 72, 96, 128, 129, 200}
+	r.Require("c08:matrix:signed", "c08:matrix:refused", "c08:matrix:len>64", "c08:matrix:selfverify")
+	r.Each("c08/hash-matrix", 20*len(lens), func(w *mon.W, i int) {
+		rng := w.Rng
+		h := crypto.Hash(i % 20) // 0 = "unset" (SHA-256 for *ECDSAOptions)
+		l := lens[i/20]
+		d, _ := keyValue(rng)
+		priv := mustPriv(d)
+		Q := oracle.MulG(d)
+		dig := rng.Bytes(l)
+		if len(dig) >= 32 && rng.Chance(1, 4) {
+			copy(dig, b32(oracle.AddM(bigN, big.NewInt(int64(rng.Intn(3))), oracle.Two256))) // leftmost 32 bytes >= n
+		}
+		size := hashSize[h]
+		if h == 0 {
+			size = 32
+		}
+		admissible := l == size && l >= 32
+		w.Case(true, []byte("hash-matrix"), []byte{byte(h), byte(l)})
+		if l > 64 {
+			w.Class("c08:matrix:len>64")
+		}
+		entropy := rng.Bytes(32)
+		var first []byte
+		for vi := 0; vi < 5; vi++ {
+			var opts crypto.SignerOpts
+			name := ""
+			enc := secec.SignatureEncoding(rng.Intn(3))
+			switch vi {
+			case 0, 1, 2, 3:
+				sv := vi%2 == 1
+				if vi < 2 {
+					enc = secec.EncodingCompact
+				}
+				opts = &secec.ECDSAOptions{Hash: h, Encoding: enc, SelfVerify: sv}
+				name = fmt.Sprintf("&ECDSAOptions{Hash: %d, Encoding: %d, SelfVerify: %v}", int(h), int(enc), sv)
+				if sv {
+					w.Class("c08:matrix:selfverify")
+				}
+			default:
+				if h == 0 {
+					continue // a bare crypto.Hash(0) means "no hashing": not a selector
+				}
+				opts, enc = h, secec.EncodingASN1
+				name = fmt.Sprintf("crypto.Hash(%d)", int(h))
+			}
+			keep := append([]byte{}, dig...)
+			sig, err := priv.Sign(&fixedReader{data: entropy}, dig, opts)
+			det := []any{"d", hb(d), "digest", hx(keep), "hash", int(h), "opts", name}
+			if !bytes.Equal(dig, keep) {
+				w.Fail("c08/hash-matrix:input", "Sign modified the caller's digest", det...)
+			}
+			if !admissible {
+				w.Class("c08:matrix:refused")
+				if err == nil || sig != nil {
+					w.Fail("c08/hash-matrix:inadmissible", fmt.Sprintf("Sign(%d-byte digest, %s) returned a signature (%x); the selected hash has %d-byte digests", l, name, sig, size), det...)
+				}
+				if po, ok := opts.(*secec.ECDSAOptions); ok && len(dig) >= 32 {
+					// what would be the signature over the leftmost 32 bytes must not verify either
+					r0, s0, _, _, _ := oracle.RFC6979Sign(d, dig)
+					cs := append(b32(r0), b32(s0)...)
+					if priv.PublicKey().Verify(dig, cs, &secec.ECDSAOptions{Hash: po.Hash, Encoding: secec.EncodingCompact}) {
+						w.Fail("c08/hash-matrix:verify-inadmissible", fmt.Sprintf("Verify(%d-byte digest, Hash: %d) accepted a signature over a digest of inadmissible length", l, int(h)), det...)
+					}
+				}
+				continue
+			}
+			w.Class("c08:matrix:signed")
+			if err != nil {
+				w.Fail("c08/hash-matrix:refused", fmt.Sprintf("Sign(%d-byte digest, %s) failed: %v", l, name, err), det...)
+				continue
+			}
+			var pr, ps *big.Int
+			if enc == secec.EncodingASN1 {
+				pr, ps, _ = oracle.DERParseSigStrict(sig)
+			} else if len(sig) >= 64 {
+				pr, ps = oracle.FromBytes(sig[:32]), oracle.FromBytes(sig[32:64])
+			}
+			if pr == nil || !oracle.ECDSAVerify(Q, dig, pr, ps) || ps.Cmp(oracle.HalfN) > 0 {
+				w.Fail("c08/hash-matrix:predicate", fmt.Sprintf("Sign(%d-byte digest, %s) = %x is not a valid low-s signature over the leftmost 32 digest bytes", l, name, sig), det...)
+				continue
+			}
+			if vi < 2 {
+				if first == nil {
+					first = sig
+				} else if !bytes.Equal(first, sig) {
+					w.Fail("c08/hash-matrix:selfverify", fmt.Sprintf("%s: turning on SelfVerify changed the output", name), det...)
+				}
+			}
+			if po, ok := opts.(*secec.ECDSAOptions); ok {
+				if !priv.PublicKey().Verify(dig, sig, &secec.ECDSAOptions{Hash: po.Hash, Encoding: enc, RejectMalleable: true}) {
+					w.Fail("c08/hash-matrix:verify", fmt.Sprintf("Verify with %s rejects the signature Sign produced with the same selector", name), det...)
+				}
+			}
+		}
+	})
+
 	// --- signing after failures, from several goroutines on one key object: an aborted
 	// attempt (entropy source fails) must leave nothing behind that a later or a concurrent
 	// signature picks up (pooled scratch returned twice or dirty, state kept in the key)
